@@ -157,14 +157,17 @@ func runC07(c *Ctx, r *Report) {
 	// the function result must be the Marshal result
 	slice := backSlice(marshalArg, nil)
 	readsField := func(name string) *ssa.UnOp {
+		var first *ssa.UnOp // the earliest load in the source: the report does not depend on map iteration order
 		for x := range slice {
 			if u, ok := x.(*ssa.UnOp); ok && u.Op == token.MUL {
 				if f, fa := fieldOf(u.X); f != nil && f.Name() == name && namedOf(fa.X.Type()) == hashT {
-					return u
+					if first == nil || u.Pos() < first.Pos() {
+						first = u
+					}
 				}
 			}
 		}
-		return nil
+		return first
 	}
 	for _, t := range table {
 		key := r.Key("R-C07.1", tb, "signed-field", t.field)
